@@ -346,6 +346,7 @@ func runUDPLife(t *testing.T, ci interface{}, trace bool) *common.Outcome {
 			stopped = true
 		})
 		simrt.WaitStuck("engine-stop", 5*time.Second, func() bool { return stopped })
+		simrt.Quiesce(100 * time.Millisecond) // (C03 says "gets", not "has got when Stop returns": that is C18's clause)
 		for i, r := range remotes {
 			for j, s := range r.sessions {
 				if s.closes > 1 {
